@@ -1,11 +1,12 @@
 #![feature(allocator_api)]
 #![allow(unused)]
 use vstd::prelude::*;
+use vstd::std_specs::cmp::*;
+use core::cmp::Ordering as CmpOrdering;
 use std::sync::Arc;
 verus! {
 // ---- unit prelude (ASSUMED): opaque values for everything a builder merely stores ----
-#[derive(PartialEq, Eq, Structural)]
-pub struct Duration { pub nanos: u128 }
+//@include time.rs
 pub struct Name { pub id: Ghost<int> }
 pub struct EventListeners { pub n: Ghost<nat> }
 impl EventListeners {
@@ -48,6 +49,14 @@ impl<T> TimeLimiterLayer<T> {
     //@body TimeLimiterLayer::new file=tllayer
 }
 pub struct TimeLimiterConfigBuilder<T> { pub timeout_source: T, pub cancel_running_future: bool, pub event_listeners: EventListeners, pub name: Name }
+impl TimeLimiterConfigBuilder<FixedTimeout> {
+    pub fn new() -> (r: Self)
+        ensures r.cancel_running_future && r.timeout_source.0.nanos == 5_000_000_000 && r.event_listeners.n@ == 0,   // #defaults_five_seconds_cancelling_without_listeners [C06]
+    //@body TimeLimiterConfigBuilder::new file=tlconfig
+    pub fn default() -> (r: Self)
+        ensures r.cancel_running_future && r.timeout_source.0.nanos == 5_000_000_000 && r.event_listeners.n@ == 0,   // #defaults_five_seconds_cancelling_without_listeners [C06]
+    //@body TimeLimiterConfigBuilder::default@Default file=tlconfig
+}
 impl<T> TimeLimiterConfigBuilder<T> {
     pub fn timeout_duration(self, duration: Duration) -> (r: TimeLimiterConfigBuilder<FixedTimeout>)
         ensures r.timeout_source.0 == duration,   // #sets_the_fixed_timeout [C06]
@@ -83,6 +92,9 @@ impl<Res> FallbackConfigBuilder<Res> {
     pub fn new() -> (r: Self)
         ensures r.strategy is None && r.handle_predicate is None && r.event_listeners.n@ == 0,   // #starts_without_strategy_and_predicate [C17]
     //@body FallbackConfigBuilder::new file=fbconfig
+    pub fn default() -> (r: Self)
+        ensures r.strategy is None && r.handle_predicate is None && r.event_listeners.n@ == 0,   // #starts_without_strategy_and_predicate [C17]
+    //@body FallbackConfigBuilder::default@Default file=fbconfig
     pub fn value(self, value: Res) -> (r: Self)
         ensures r.strategy == Some(FallbackStrategy::Value(value)),   // #sets_the_value_strategy [C17]
             r.handle_predicate == self.handle_predicate && r.event_listeners == self.event_listeners && r.name == self.name,   // #keeps_predicate_and_listeners [C17]
@@ -142,6 +154,24 @@ pub struct CircuitBreakerConfigBuilder<C> {
     pub failure_rate_threshold: f64, pub sliding_window_type: SlidingWindowType, pub sliding_window_size: usize, pub sliding_window_duration: Option<Duration>,
     pub wait_duration_in_open: Duration, pub permitted_calls_in_half_open: usize, pub failure_classifier: C, pub minimum_number_of_calls: Option<usize>,
     pub slow_call_duration_threshold: Option<Duration>, pub slow_call_rate_threshold: f64, pub event_listeners: EventListeners, pub name: Name,
+}
+pub struct DefaultClassifier;
+pub uninterp spec fn f64_half() -> f64;
+pub uninterp spec fn f64_one() -> f64;
+#[verifier::external_body] pub fn vx_half() -> (r: f64) ensures r == f64_half() { unimplemented!() }
+#[verifier::external_body] pub fn vx_one() -> (r: f64) ensures r == f64_one() { unimplemented!() }
+pub open spec fn cb_defaults<C>(r: CircuitBreakerConfigBuilder<C>) -> bool {
+    r.failure_rate_threshold == f64_half() && r.sliding_window_type == SlidingWindowType::CountBased && r.sliding_window_size == 100 && r.sliding_window_duration is None
+    && r.wait_duration_in_open.nanos == 30_000_000_000 && r.permitted_calls_in_half_open == 1 && r.minimum_number_of_calls is None
+    && r.slow_call_duration_threshold is None && r.slow_call_rate_threshold == f64_one() && r.event_listeners.n@ == 0
+}
+impl CircuitBreakerConfigBuilder<DefaultClassifier> {
+    pub fn new() -> (r: Self)
+        ensures cb_defaults(r),   // #defaults_count_based_100_calls_half_failing_30s_open_one_trial_no_slow_call_detection [C04,C09]
+    //@body CircuitBreakerConfigBuilder::new file=cbconfig
+    pub fn default() -> (r: Self)
+        ensures cb_defaults(r),   // #defaults_count_based_100_calls_half_failing_30s_open_one_trial_no_slow_call_detection [C04,C09]
+    //@body CircuitBreakerConfigBuilder::default@Default file=cbconfig
 }
 impl<C> CircuitBreakerConfigBuilder<C> {
     pub fn failure_rate_threshold(self, rate: f64) -> (r: Self)
